@@ -20,7 +20,7 @@ def program_line(pid, rec):
     parts = ["P", str(pid), str(len(r["shape"]))] + [str(x) for x in r["shape"]] + [str(x) for x in r["first"]]
     parts.append(str(len(rec["path"])))
     for o in rec["path"]:
-        parts += [o["op"] + RECV_SUFFIX.get(o.get("recv", "lv"), ""), str(len(o["args"]))] + [str(a) for a in o["args"]]
+        parts += [("^" if o.get("on") == "array" else "") + o["op"] + RECV_SUFFIX.get(o.get("recv", "lv"), ""), str(len(o["args"]))] + [str(a) for a in o["args"]]
     return " ".join(parts) + "\n"
 
 
